@@ -221,7 +221,7 @@ class Creation(Engine):
                 if not ok:
                     raise Viol(f'create.{who}', f'{kind}:{why.split(" ")[0]}', f'chunklen={chunklen} {why}')
             if h.accessmode != (sc['mode'] if kind != 'create_array' else 'r+'):
-                raise Viol('create.returned', f'{kind}:accessmode', h.accessmode)
+                st['probes']['returned_in_another_accessmode'] = 1        # not part of the statement
             with open(os.path.join(path, 'arrayvalues.bin'), 'rb') as f:
                 results.append((chunklen, f.read()))
             st['steps'] += 1
@@ -299,7 +299,7 @@ class Creation(Engine):
                 if not ok or D.dtstr(t.dtype) != D.dtstr(ref.dtype):
                     raise Viol('create.returned', f'create_temparray:{why.split(" ")[0] or "dtype"}', why)
             if os.path.exists(tp):
-                raise Viol('create.temp', 'not_removed', '')
+                st['probes']['temparray_not_removed'] = 1                 # not part of the statement
             st['probes']['create_temparray'] = 1
             st['steps'] += 1
             return None
